@@ -252,6 +252,13 @@ def run(ctx, rep):
                    f"the visibility applied here does not derive from {'the first definition' if not from_key else 'the alternatives'}: a hidden/protected definition that is "
                    "overridden by a default one would be exported", pa.file, t["l"])
         rep.floor("visibility-merge", "handle_non_default_visibility calls", n_g, 2)
+        import decide as _d2
+        for k_, (bi, t) in enumerate(guards):
+            at = {str(a[0]): a[1] for a in _d2.atoms_at(P, F, pa, bi)}
+            pol = any(("::ne(" in k and "Visibility::Default" in k and v is True) or ("::eq(" in k and "Visibility::Default" in k and v is False) for k, v in at.items())
+            rep.ob("visibility-merge", f"guard-polarity#{k_ + 1}", pol,
+                   "the restrictive visibility is applied on the `merged visibility != Default` edge" if pol else
+                   "handle_non_default_visibility is not on the `!= Default` edge: hidden / protected definitions would be left exported and default ones restricted", pa.file, t["l"])
 
     # ---- --exclude-libs accumulates over repeated options ----------------------------------------------------------------------------
     # `--exclude-libs a.a --exclude-libs b.a` demotes the symbols of both archives (GNU ld). The option handler may therefore build a fresh
